@@ -22,7 +22,7 @@ pub fn exists_impl(ctx: &Interpreter, this: CelValue, bytecode: &[&CelByteCode])
 
             for value in list.into_iter() {
                 bindings.bind_param(&ident_name, value.clone());
-                let interp = Interpreter::new(&cel, &bindings);
+                let interp = ctx.child(&cel, &bindings);
 
                 let res = match interp.run_raw(bytecode[1], true) {
                     Ok(val) => val,
